@@ -173,3 +173,34 @@ Theorem split_chunk_independent k cs cs' : concat cs = concat cs' ->
 Proof. intros E. rewrite !nfeed_all_concat by apply init_stable. rewrite E. reflexivity. Qed.
 
 End Proofs.
+
+(* ------------------------------------------------------------------------------------------------------------ *)
+(* The size guard of the splitter model IS the verdict translated from Negotiation.dataReceived: `drain` refuses, waits or splits
+   exactly as header_verdict says for (bytes.find(terminator), len(buffer)).  So the chunk-independence theorems above are about
+   the translated guard, not about a restatement of it. *)
+Require Import Verif.lib.Negotiate Verif.lib.NegotiateProofs.
+
+(* self.buffer.find(b"\r\n\r\n") *)
+Definition eoh_of (buf : list Z) : Z := match find_term buf with Some e => Z.of_nat e | None => (-1)%Z end.
+
+Theorem drain_test_is_header_verdict (ok : list Z -> bool) f buf k :
+  drain ok (S f) buf (S k) =
+    let v := header_verdict (eoh_of buf) (Z.of_nat (List.length buf)) in
+    if (v =? 0)%Z then (NDead, [], [])
+    else if (v =? 1)%Z then (NWait buf (S k), [], [])
+    else let e := Z.to_nat (eoh_of buf) in
+         let hdr := firstn e buf in
+         if ok hdr then let '(s, bs, p) := drain ok f (skipn (e + 4) buf) k in (s, hdr :: bs, p)
+         else (NDead, [hdr], []).
+Proof.
+  cbn [drain]. unfold eoh_of. cbv zeta. destruct (find_term buf) as [e|] eqn:F.
+  - destruct (Nat.ltb_spec cap e) as [H|H].
+    + rewrite header_verdict_beyond_cap; [reflexivity|]. unfold cap, negotiation_header_cap in H. lia.
+    + rewrite header_verdict_within_cap; [|unfold cap, negotiation_header_cap in H; lia].
+      rewrite Nat2Z.id. reflexivity.
+  - destruct (Nat.leb_spec (cap + slack) (List.length buf)) as [H|H].
+    + rewrite (proj2 (header_verdict_noterm _)); [reflexivity|].
+      unfold cap, slack, negotiation_header_cap, negotiation_noterm_slack in H. lia.
+    + rewrite (proj2 (header_verdict_noterm_waits _)); [reflexivity|].
+      unfold cap, slack, negotiation_header_cap, negotiation_noterm_slack in H. lia.
+Qed.
